@@ -1,4 +1,5 @@
 import BevySyncModel.Proofs.Conn
+import BevySyncModel.Proofs.Budget
 import BevySyncModel.Generated.Conn
 import BevySyncModel.Generated.Sync
 import BevySyncModel.Generated.Snap
@@ -92,6 +93,44 @@ Connecting leaves the client at Connecting for ever -/
 theorem C15_false_with_legacy_condition :
     let c := [Op.insert, .frame, .frame, .remove, .frame, .frame, .frame, .frame].foldl (Client.step true false) {}
     c.state = .connecting ∧ c.next = none ∧ c.transport = false := by decide
+
+/-- **the snapshot and the channel's memory budget (the premise of "exactly once per join", made explicit).**
+`send_initial_sync` queues every message of the snapshot and `FinishedInitialSync` last in one call (tie above); renet's
+reliable channel accepts a message only while the unacknowledged bytes of that client stay within its budget and
+disconnects the client otherwise (`Slice/Budget.lean`).  The joiner is sent the whole snapshot, in order, marker last,
+exactly when snapshot + marker fit into what the channel has left; otherwise it is sent **nothing** and is disconnected. -/
+theorem C15_join_served_iff_snapshot_fits (budget : Nat) (snapshot : List Nat) (marker : Nat) (c : Budget.Chan)
+    (hc : c.closed = false) (hu : c.used ≤ budget) :
+    (Budget.delivered (Budget.sendAll budget c (snapshot ++ [marker])) = c.queued ++ (snapshot ++ [marker]) ↔
+      c.used + Budget.total (snapshot ++ [marker]) ≤ budget) ∧
+    (c.used + Budget.total (snapshot ++ [marker]) > budget →
+      (Budget.sendAll budget c (snapshot ++ [marker])).closed = true ∧
+      Budget.delivered (Budget.sendAll budget c (snapshot ++ [marker])) = []) := by
+  refine ⟨?_, Budget.overflows budget _ c hc hu⟩
+  have h := Budget.served_iff_fits budget (snapshot ++ [marker]) c hc hu
+  constructor
+  · intro hd
+    rcases h.mp hd with h1 | h1
+    · exact h1
+    · simp at h1
+  · intro hf; exact h.mpr (Or.inl hf)
+
+/-- **D20 (recorded finding), kernel-checked.** Ten values of 512 KiB (each `ComponentUpdated` a few dozen bytes more) and
+the marker against the default budget of 5 MiB on a fresh channel: a message is refused, the joiner is disconnected and
+receives nothing — no `InitialSyncFinished` for this join.  Nine are served. -/
+theorem C15_D20_join_refused :
+    (Budget.sendAll (5 * 1024 * 1024) {} (List.replicate 10 (512 * 1024 + 70) ++ [4])).closed = true ∧
+    Budget.delivered (Budget.sendAll (5 * 1024 * 1024) {} (List.replicate 10 (512 * 1024 + 70) ++ [4])) = [] ∧
+    Budget.delivered (Budget.sendAll (5 * 1024 * 1024) {} (List.replicate 9 (512 * 1024 + 70) ++ [4])) =
+      List.replicate 9 (512 * 1024 + 70) ++ [4] := by
+  decide
+
+/-- D20, second face: a client that was already connected when the values were first detected has their live broadcast
+unacknowledged on its channel when it asks for the snapshot — six such values are refused although six alone fit -/
+theorem C15_D20_double_delivery :
+    let live := Budget.sendAll (5 * 1024 * 1024) {} (List.replicate 6 (512 * 1024 + 70))
+    live.closed = false ∧ (Budget.sendAll (5 * 1024 * 1024) { live with queued := [] } (List.replicate 6 (512 * 1024 + 70) ++ [4])).closed = true := by
+  decide
 
 /-- non-vacuity: a full client life cycle and a hosting cycle -/
 example :
